@@ -269,6 +269,8 @@ pub const SIZES_QUICK: [usize; 11] = [1, 2, 3, 4, 5, 8, 13, 27, 50, 100, 200];
 pub const CONDITIONED: [&str; 8] =
     ["uniform", "uniform", "lattice", "blattice", "coplanar", "mildcluster", "tiny", "clattice"];
 
+pub const ALL_FAMILIES: [&str; 13] = ["uniform", "lattice", "clattice", "blattice", "coplanar", "mildcluster", "tiny", "nearlattice", "walls", "cluster", "cosphere", "slabwalls", "nearpairs"];
+
 fn unit_points(family: &str, n: usize, dim: usize, r: &mut Rng) -> Vec<DVec3> {
     let mut u = vec![];
     let rnd = |r: &mut Rng| DVec3::new(r.f(), r.f(), r.f());
@@ -515,7 +517,14 @@ impl Default for GenOpts<'static> {
 /// Generate case number `k` of the stream (label, tier, seed).
 pub fn gen_case(label: &str, tier: &str, seed: u64, k: u64, o: &GenOpts) -> Case {
     let mut r = Rng::stream(label, &[crate::rng::mix(tier, &[]), seed, k]);
-    let family = *r.pick(o.families);
+    let mut family = *r.pick(o.families);
+    // exploration aid: VERIF_FAMILY=<name> forces the family of every generated case
+    let forced = std::env::var("VERIF_FAMILY").ok();
+    if let Some(f) = forced.as_deref() {
+        if let Some(k) = ALL_FAMILIES.iter().find(|x| **x == f) {
+            family = k;
+        }
+    }
     let dim = *r.pick(o.dims);
     let periodic = o.periodic.unwrap_or_else(|| r.bool());
     let b = if o.mild_box { mild_box(&mut r) } else { random_box(&mut r) };
